@@ -44,6 +44,22 @@ def c01stepCore (s : State Tbl) (cmd : String) (args : List String) : State Tbl 
   | "select", [p] => match p.toNat? with | some p => run (.select p) | none => bad
   | "selectfu", [p] => match p.toNat? with | some p => run (.selectForUpdate p) | none => bad
   | "dml", [p, k, a] => match p.toNat?, a.toInt? with | some p, some a => run (.dml p (dmlFn k a)) | _, _ => bad
+  | "deljoin", [p, q, a] =>
+    -- DELETE a, b FROM p a LEFT JOIN q b ON a.v = b.v WHERE a.v = k: both files are taken for update (p first);
+    -- rows k leave p, and — when p had such a row — the rows k of q.  Composed from the model's own `dml` steps.
+    match p.toNat?, q.toNat?, a.toInt? with
+    | some p, some q, some k =>
+      match load s p true with
+      | none => (s, showOut (Out.failed : Out Tbl) ++ "|" ++ showState s)
+      | some (s1, cp) =>
+        match load s1 q true with
+        | none => (s1, showOut (Out.failed : Out Tbl) ++ "|" ++ showState s1)
+        | some (_, _) =>
+          let has := cp.contains k
+          let s2 := (step s1 (.dml p (dmlFn "delwhere" k))).1
+          let r := step s2 (.dml q (if has then dmlFn "delwhere" k else some))
+          (r.1, showOut r.2 ++ "|" ++ showState r.1)
+    | _, _, _ => bad
   | "create", [p] => match p.toNat? with | some p => run (.create p []) | none => bad
   | "dtemp", [t] => match t.toNat? with | some t => run (.declareTemp t []) | none => bad
   | "dmltemp", [t, k, a] => match t.toNat?, a.toInt? with | some t, some a => run (.dmlTemp t (dmlFn k a)) | _, _ => bad
